@@ -94,9 +94,27 @@ def run(chk, which):
     unknown = {c[k] for c in cases for k in ("item", "before", "after")} - set(MENU) - {"none"}
     if unknown:
         raise ToolError(f"no rendering for menu items {unknown}")
-    srcs = [program(c) for c in cases]
-    # mixed=False: every program through the same (single-file) path, so that alone and together differ in the neighbours only
-    results = observe.generate(srcs, mixed=False)
+    srcs = [program(c) if c.get("place", "same_file") == "same_file" else MENU[c["item"]].format(N=SUBJECT) for c in cases]
+    # mixed=False: every program through the same path, so that alone and together differ in the neighbours only
+    same = [i for i, c in enumerate(cases) if c.get("place", "same_file") == "same_file"]
+    other = [i for i, c in enumerate(cases) if c.get("place", "same_file") == "other_crate"]
+    results = [None] * len(cases)
+    for i, r in zip(same, observe.generate([srcs[i] for i in same], mixed=False)):
+        results[i] = r
+    if other:
+        # folder output: the item in crate cratex, the neighbours in crates that sort before / after it (Go has no folder mode)
+        extra = []
+        for i in other:
+            c = cases[i]
+            fs = []
+            if c["before"] != "none":
+                fs.append({"src": MENU[c["before"]].format(N=BEFORE), "crate": "aaa_other", "path": "aaa_other/src/lib.rs", "out": "aaa_other"})
+            if c["after"] != "none":
+                fs.append({"src": MENU[c["after"]].format(N=AFTER), "crate": "zzz_other", "path": "zzz_other/src/lib.rs", "out": "zzz_other"})
+            extra.append(fs)
+        langs_f = [l for l in common.LANGS if l != "go"]
+        for i, r in zip(other, observe.generate([srcs[i] for i in other], langs=langs_f, multi=True, extra_files=extra, mixed=False)):
+            results[i] = dict(r, go={"status": "skipped"})
     alone = {}
     for c, per in zip(cases, results):
         if c["before"] == "none" and c["after"] == "none":
@@ -132,13 +150,15 @@ def run(chk, which):
         lang, c, src = meta[b - 1]
         e = events[b - 1]
         where = "+".join(x for x in ("after-a-neighbour" if c["before"] != "none" else "", "before-a-neighbour" if c["after"] != "none" else "") if x)
+        if c.get("place", "same_file") == "other_crate":
+            where += "-in-another-crate"
         chk.mismatch(f"{chk.pid}/{lang}/compose/{c['item']}/{where}/{which}-depend-on-neighbours",
                      f"{lang}: the {which} generated for {c['item']} differ between the run that generates it alone and the run with neighbours "
                      f"(before: {c['before']}, after: {c['after']}): alone {str(e['alone'])[:200]} / together {str(e['together'])[:200]}",
                      {"compose": c, "lang": lang, "src": src}, e["alone"], e["together"])
     chk.traces += len(events) - len(tres.bad)
     for lang, c, _ in meta:
-        chk.judged((lang, "compose", which, c["item"], c["before"], c["after"]))
+        chk.judged((lang, "compose", which, c["item"], c["before"], c["after"], c.get("place", "same_file")))
     chk.extra["compose_events"] = len(events)
 
 
